@@ -430,7 +430,7 @@ impl Explorer {
             stats.decided_by_interval += ctx.stats.decided_interval;
             stats.decided_by_cache += ctx.stats.decided_cache;
             stats.simplified_nodes += ctx.stats.simplified;
-            for (l, n) in &ctx.lemma_uses {
+            for (l, n) in ctx.lemma_uses.iter().chain(ctx.lemma_uses_q.borrow().iter()) {
                 *stats.lemmas_used.entry(l.to_string()).or_insert(0) += n;
             }
             let pc = if self.opts.verbose || obs.iter().any(|o: &ObReport| o.verdict != "holds") {
